@@ -44,6 +44,64 @@ class C08Suite(mc.MutexSuite):
         return msgs
 
 
+class C08PtrSuite(C08Suite):
+    """The pointer level: the harness prints, after every operation line, a digest of the REAL `_requests`, `_queue` and of the
+    `_next` field of every request node it knows to be alive; the driver runs the pointer-level model (MutexPtr.lean: links are
+    links, build_queue is an exchange plus an explicit loop in the caller's next segment, unlock pops by pointer) and prints the
+    same lines. The FIFO / no-loss oracles run on the operation lines as in `handoff-order`; `ptr_oracle` restates the property on
+    the printed links."""
+    name = "ptr-level"
+    corpus_prefix = "c08p_"
+    driver = "drv_c08p"
+
+    def gen_cases(self, rng, tier):
+        if tier == "quick":
+            return mc.gen_random(rng, 300, 2, 4, 3, kind="mutexp")
+        return mc.gen_random(rng, 6000, 2, 4, 3, kind="mutexp") + mc.gen_exhaustive_pairs(10, rounds=1, kind="mutexp")
+
+    def oracle(self, case, out):
+        return C08Suite.oracle(self, case, out) + self.ptr_oracle(case, out)
+
+    @staticmethod
+    def ptr_oracle(case, out):
+        """on the real links: `_queue` is a null-terminated chain of alive request nodes in arrival order (arrival = the successful
+        publishing CAS of the node's owner), `_requests` is a chain of alive request nodes, newest first, ending in the doorman or in
+        null; no pointer leads to something that is not a known alive request node"""
+        msgs = []
+        stamp, clock = {}, 0
+        digs = {d["after"]: d for d in mc.parse_digests(out)}
+        for i, l in enumerate(out):
+            w = l.split()
+            if len(w) >= 6 and w[0] == "s" and w[3] == "cas+" and w[4] == "req" and w[5].endswith(">ptr"):
+                stamp[int(w[2][1:])] = clock
+                clock += 1
+            d = digs.get(i)
+            if d is None:
+                continue
+            q, qend = mc.chain(d, d["queue"])
+            r, rend = mc.chain(d, d["req"])
+            if qend != "null":
+                msgs.append("ptr: _queue is not a null-terminated chain of alive request nodes (ends in %s) after `%s`" % (qend, l))
+            if rend not in ("null", "door"):
+                msgs.append("ptr: _requests is not a chain of alive request nodes ending in the doorman or null (ends in %s) after `%s`" % (rend, l))
+            if set(q) & set(r):
+                msgs.append("ptr: a request node is linked both from _queue and from _requests after `%s`" % l)
+            ag = lambda n: int(n[1:].split(".")[0])
+            qs = [stamp.get(ag(n), -1) for n in q]
+            if any(a >= b for a, b in zip(qs, qs[1:])):
+                msgs.append("fifo-ptr: _queue links a later request before an earlier one (%s) after `%s`" % (" ".join(q), l))
+            rs = [stamp.get(ag(n), -1) for n in r]
+            if any(a <= b for a, b in zip(rs, rs[1:])):
+                msgs.append("ptr: the _requests stack is not newest-first (%s) after `%s`" % (" ".join(r), l))
+            if msgs:
+                break
+        return msgs[:3]
+
+    def nontrivial(self, case, out):
+        # a request waited and the queue was rebuilt from at least one link
+        return mc.MutexSuite.nontrivial(self, case, out) and any(" xchg req ptr>" in l for l in out)
+
+
 class C08(Spec):
     pid = "C08"
     lean_modules = ["CoclsModel.Props.C08"]
@@ -62,7 +120,7 @@ class C08(Spec):
     assumptions = ["interleavings are sequentially consistent (memory orders: C03)", "every owner eventually releases (liveness is stated as: no stuck state)"]
 
     def suites(self):
-        return [C08Suite()]
+        return [C08Suite(), C08PtrSuite()]
 
 
 SPEC = C08()
